@@ -471,9 +471,20 @@ func (c *Ctx) guardsMissing(ex excEntry, f *ssa.Function, b *ssa.BasicBlock) str
 		// whose other arm returns normally); it must exist and dominate all the same
 		noReject := strings.HasPrefix(g.cond, "~")
 		g.cond = strings.TrimPrefix(g.cond, "~")
+		// alternatives: the same test over the same quantity held in another place (a slot of a slice, or the
+		// local it is accumulated in), separated by " ∥ "
+		alts := strings.Split(g.cond, " ∥ ")
+		anyAlt := func(cond ssa.Value) bool {
+			for _, a := range alts {
+				if condMatches(cond, a) {
+					return true
+				}
+			}
+			return false
+		}
 		for _, bb := range gf.Blocks {
 			ifi := lastIf(bb)
-			if ifi == nil || !(condMatches(ifi.Cond, g.cond) || c.linGuardMatches(gf, bb, ifi.Cond, g.cond)) {
+			if ifi == nil || !(anyAlt(ifi.Cond) || c.linGuardMatches(gf, bb, ifi.Cond, g.cond)) {
 				continue
 			}
 			// the guard must reject: one of its edges leads (directly) to a return of a non-nil error
@@ -497,7 +508,7 @@ func (c *Ctx) guardsMissing(ex excEntry, f *ssa.Function, b *ssa.BasicBlock) str
 				}
 				for _, bb := range h.Blocks {
 					ifi := lastIf(bb)
-					if ifi != nil && condMatches(ifi.Cond, g.cond) && (noReject || rejects(h, bb)) {
+					if ifi != nil && (anyAlt(ifi.Cond) || c.linGuardMatches(h, bb, ifi.Cond, g.cond)) && (noReject || rejects(h, bb)) {
 						found = true
 					}
 				}
